@@ -94,3 +94,18 @@ Theorem C01_roundtrip_blocks_chunked : forall c ops s e,
   = runs (s_map (fold_left (spec_step_blocks c) ops spec_init)) s e.
 Proof. exact roundtrip_blocks_chunked. Qed.
 Print Assumptions C01_roundtrip_blocks_chunked.
+
+(* the round trip in the un-chunked continuous layout (all histories of that mode): the reader model
+   returns the canonical block list of what the files expose, and (refines_u) what they expose is
+   every written sample at its index with its value plus the fill value in every other slot of a
+   file that holds a written sample -- "other than the documented gap fill of continuous mode" *)
+From DRF Require Import Proofs.WriterInvU.
+
+Theorem C01_roundtrip_unchunked : forall c ops s e,
+  vcfg c -> 0 < c_sc c -> (c_sc c * 1000) mod c_fc c = 0 ->
+  c_chunk c = false -> c_cont c = true -> Forall (fun op => 0 <= fst op) ops ->
+  let st := fold_left (model_step c) ops init_state in
+  read ExactRational (rc_of c) (map (to_rfile c) (all_files st)) s e = runs (lookup_st st) s e /\
+  refines_u c st (fold_left (spec_step c) ops spec_init).
+Proof. exact roundtrip_unchunked. Qed.
+Print Assumptions C01_roundtrip_unchunked.
